@@ -60,6 +60,9 @@ def _probe(cols, dt):
 
 # explicit "not supported" errors the property allows in place of a result
 UNSUPPORTED = (NotImplementedError,)
+# the probe `result @ X` is one more program step: it gets its own group (<group>.next!) so that every group has one root cause;
+# the trailing "!" lets a known-finding glob exclude it (`*[!!]`)
+NEXT = ".next!"
 
 
 def check_value(rec, group, label, fn, expected, scale=1.0, allowed=UNSUPPORTED, probe=True, want_tensor=None, dtype=None):
@@ -98,11 +101,11 @@ def check_value(rec, group, label, fn, expected, scale=1.0, allowed=UNSUPPORTED,
         try:
             y = r @ X
             ok = tuple(y.shape) == tuple((expected @ X).shape) and zoo.close(dn(y), expected.to(d.dtype) @ X, scale=scale * max(1, expected.shape[-1]))
-            rec.check(group, label + "|probe=matmul", ok, f"(result @ X) differs from dense (result type {type(r).__name__})")
+            rec.check(group + NEXT, label + "|probe=matmul", ok, f"(result @ X) differs from dense (result type {type(r).__name__})")
         except UNSUPPORTED:
             pass
         except Exception as e:  # noqa
-            rec.check(group, label + "|probe=matmul", False, f"(result @ X) raised {type(e).__name__}: {e}"[:400] + f" (result type {type(r).__name__})")
+            rec.check(group + NEXT, label + "|probe=matmul", False, f"(result @ X) raised {type(e).__name__}: {e}"[:400] + f" (result type {type(r).__name__})")
     return r
 
 
